@@ -412,7 +412,7 @@ def run(tier, only=None):
         if only and only != name:
             continue
         t0 = time.time()
-        st = explore.explore(h, mode=mode, k=k, params=params, repo_root=core.REPO)
+        st = explore.explore(h, mode=mode, k=k, params=params, repo_root=core.REPO, time_cap=(600 if tier == "quick" else 1500))
         bound, flags = RULES.get(name, ("dev(%s) over coverage subsets, obs presence, climatology mode, one missing cell per (file, field, case), perturbed input; %r" % (k, params), ("differential", "clim", "obsrange")))
         subs.append(core.Sub.from_e1(name, st, bound=bound,
                                      rule="one execution = one dataset, all requests (field sets x inputs x axes x slices) compared with the reference; "
